@@ -41,6 +41,67 @@ def parse_counts(so):
     return out
 
 
+ONE_LINE = [[1, 1, 2], [2, 7, 1], [1]]      # aab / b a / a : files that consist of one line without a terminator
+
+
+def one_line_part(chk, recs, lines, sc):
+    """Files of a single unterminated line (the line starts at offset 0 of whatever buffer holds it): the number of matches
+    according to --count-matches, -o and --json, against the model and against each other."""
+    idx = [lines.index(c) for c in ONE_LINE]
+    for k, c in enumerate(ONE_LINE):
+        sc.write("o/f%d" % k, rr.sym_bytes(c))
+    names = ["f%d" % k for k in range(len(ONE_LINE))]
+    base = ["--no-config", "--color", "never", "-j1", "--sort", "path"]
+    modes = [("--count-matches", ["--count-matches", "--include-zero"]), ("-o records", ["-o", "-n", "--no-heading", "--with-filename"]),
+             ("JSON submatches", ["--json"])]
+    jobs, meta = [], []
+    for i, r in enumerate(recs):
+        if r["o"]["inv"] or r["o"]["crlf"]:
+            continue
+        for mm in ("--mmap", "--no-mmap"):
+            for name, flags in modes:
+                jobs.append({"args": base + flags + [mm] + rr.opt_flags(r["o"]) + ["-e", rr.render(r["u"])] + names, "cwd": sc.path("o")})
+                meta.append((i, mm, name))
+    outs = rgrun.run_many(jobs)
+    chk.evaluations += len(jobs)
+    seen = {}
+    for (i, mm, name), (rc, so, se) in zip(meta, outs):
+        got = {n: 0 for n in names}
+        if name == "--count-matches":
+            got.update({k: v for k, v in parse_counts(so).items() if k in got})
+        elif name == "-o records":
+            for l in so.split(b"\n"):
+                if l:
+                    got[l.split(b":", 1)[0].decode()] += 1
+        else:
+            for m in rgrun.json_matches(so):
+                if m.get("type") == "match":
+                    got[m["data"]["path"]["text"]] += len(m["data"]["submatches"])
+        seen.setdefault((i, mm), {})[name] = got
+    for (i, mm), vals in seen.items():
+        r = recs[i]
+        if not all(judged(r, lines[x]) for x in idx):
+            continue
+        want = {n: (len(r["lines"][idx[k]]["m"]) if r["lines"][idx[k]]["sel"] else 0) for k, n in enumerate(names)}
+        deficit = {}
+        for k, n in enumerate(names):
+            lr = r["lines"][idx[k]]
+            blen = len(rr.sym_bytes(ONE_LINE[k]))
+            deficit[n] = 1 if (lr["sel"] and lr["m"] and lr["m"][-1] == [blen, blen]) else 0
+        short = [m for m, v in sorted(vals.items()) if all(v[n] == want[n] - deficit[n] for n in names) and sum(deficit.values()) > 0]
+        right = [m for m, v in sorted(vals.items()) if all(v[n] == want[n] for n in names)]
+        if len(right) == len(vals):
+            chk.validated += len(vals)
+            continue
+        sig = {"mode": "one_line", "mmap": mm, "unterminated": True, "pattern": rr.render(r["u"]), "opts": sorted(k for k, v in r["o"].items() if v),
+               "modes_disagree": len(set(json.dumps(v, sort_keys=True) for v in vals.values())) > 1}
+        if len(short) + len(right) == len(vals):
+            sig["eof_empty_match"] = True
+            sig["short_modes"] = "+".join(short)
+        chk.violation(sig, {"why": {"matches reported per mode": vals, "the model's number of matches": want},
+                            "files": {n: rr.sym_bytes(c).decode() for n, c in zip(names, ONE_LINE)}, "scenario": {"u": r["u"], "o": r["o"]}})
+
+
 def main(tier):
     chk = vlib.Check("C10", tier)
     chk.rule = ("every (pattern, options) of the printer family x max-count in {none, 1, 2} x {all files terminated, last lines unterminated}; "
@@ -234,6 +295,7 @@ def main(tier):
                                "max_count": maxc, "directory": str(term_last)})
             else:
                 chk.validated += 1
+        one_line_part(chk, recs, lines, sc)
     finally:
         sc.close()
     ml_part(chk, tier)
